@@ -19,7 +19,8 @@ UpgFew  == {<<>>, << <<"websocket">> >>, << <<"h2c", "WebSocket">> >>, << <<"h2c
             << <<"websocketx">> >>, << <<"h2c">> >>}
 Methods == {"GET", "POST", "HEAD", "get"}
 Protos  == {"1.0", "1.1", "2.0"}
-Versions == {"13", "8", "", "missing"}
+(* a version header that merely MENTIONS 13 -- a list, or one of several lines ("8|13": two header lines) -- is not version 13 *)
+Versions == {"13", "8", "", "missing", "8, 13", "13, 14", "8|13"}
 Keys == {"ok16", "ok16spaces", "short", "long", "nonb64", "missing", "twoLines", "empty", "commaJoined", "blankThenOk", "okThenBlank", "spacesThenOk", "dec14", "dec15", "dec17", "dec18", "ok16nopad", "ok16urlsafe", "ok16noncanon"}
 SubTok == {"a", "b", "A"}
 SubLists == {<<>>} \cup Seq12(SubTok)
@@ -86,10 +87,12 @@ Compliant(resp, mode) == mode # "nct" \/ resp = <<>> \/
 C14CliRows == SetToSeq({ [resp |-> r, mode |-> m, exp |-> ClientVerify(r, m), compliant |-> Compliant(r, m)] : r \in RespAlphabet, m \in Modes })
 
 (* ------------------------------------------------------------------ C13 *)
+(* accept values: "samebytes" = another base64 spelling of the same 20 bytes (non-zero padding bits in the last sextet), "nopad" = the   *)
+(* value without its "=", "twolines" = a wrong value on the first header line and the right one on the second: none IS the value        *)
 RConn == {<<>>, << <<"Upgrade">> >>, << <<"upgrade">> >>, << <<"keep-alive">> >>, << <<"keep-alive", "Upgrade">> >>}
 RUpg  == {<<>>, << <<"websocket">> >>, << <<"WebSocket">> >>, << <<"h2c">> >>}
 C13Set == { [resp |-> [status |-> st, conn |-> c, upg |-> u, accept |-> a, sub |-> sb, ext |-> x], requested |-> rq, mode |-> m] :
-                      st \in {101, 200, 400, 500}, c \in RConn, u \in RUpg, a \in {"correct", "otherkey", "missing", "casechanged"},
+                      st \in {101, 200, 400, 500}, c \in RConn, u \in RUpg, a \in {"correct", "otherkey", "missing", "casechanged", "samebytes", "nopad", "twolines"},
                       sb \in {"", "a", "b", "A", "b, a", "b|a"}, rq \in {<<>>, <<"a">>, <<"a", "b">>},
                       x \in (IF Big THEN RespAlphabet ELSE {<<>>, <<PMD(<<>>)>>, << [name |-> "x-foo", params |-> <<>>] >>, <<PMD(<<P("unknown_param", "")>>)>>,
                                                <<PMD(<<P("client_max_window_bits", "15")>>)>>, <<PMD(<<P("client_max_window_bits", "10")>>)>>, <<PMD(<<P("server_max_window_bits", "10")>>)>>,
